@@ -296,8 +296,8 @@ EXTRA = {
     "C02": " Added: colliding property names keep distinct fields (rename-until-unused pattern); the recursion context (depth override, allow_self_reference) is handed to every recursive parse call; no registration-vetoing flag is raised before the registration decision. Round 3: the type resolvers look schemas up by the exact IR name; a known name-content heuristic whose co-conjuncts change is reported again (finding identity includes them). Round 4: the alias decision is false for every schema with properties (evaluated over type/enum/oneOf/anyOf); oneOf/anyOf drop only members without any structure; the registry key never shadows another declared name and references find registered schemas through a raw-name index (no order-dependent second parse). Round 5: the by-name fallback is evaluated over the type domain (integer and number are different kinds); sibling inline property schemas get distinct made-up names; a made-up name is tested against the declared names before it is used; the cycle tracker's exit completes the schema unconditionally. Rounds 6-7: an allOf merge that met a base still on the parsing stack is completed once all schemas are parsed (transitively); the by-name lookup that binds a cycle placeholder is not refused on account of the target's kind; no named schema is filtered out between de-collision and emission. Round 8: the filter that selects what the completion pass revisits is followed as well.",
     "C03": " Added: the two composition resolvers (oneOf / anyOf copies) return the same results; type-array nullability is read from the document node at every sibling site. Round 3: every discriminator value has a dispatch entry (= R14.5); every Python type chosen for a string format encodes back to a JSON string. Round 4: wire keys are emitted with ensure_ascii=False; union variants are tried in declared order; a field the Meta map does not list keeps its own name as wire key in both directions. Round 5: the resolver's by-name fallback never merges kinds; the union decoder reads the discriminator from the type as given and keeps Annotated members whole. Rounds 6-7: a JSON scalar of a primitive union is decoded as the variant of its own type; nothing but `null` is filtered out of an `enum` list; the hook factories' type resolver has no shortcut around get_type_hints. Round 8: a dict comprehension keyed by anything but the value counts as an enum filter.",
     "C05": " Added: every declared media type passes the streaming classification in the loader; the handler's type-alias tests exclude what ModelVisitor's classification excludes (enums are classes). Round 3: call-local memo tables of the loader are keyed by every loop-varying input of the stored value (a shared component response keeps its own status code per reference). Round 4: the streaming body yields raw bytes exactly when the annotated item type is bytes; each branch of the multi-media-type chain accepts exactly its declared type. Round 5: the union decoder keeps the discriminator metadata; the class name synthesized for an unnamed inline response body depends on the response, not on the operation alone. Rounds 6-7: the stream decoder follows the recorded stream format; a schema-less media type counts as 'no schema'; a primary response declared as `2XX` gets a success arm, written after every exact-status arm. Round 8: int-for-float clause of the union primitive test (= R14.15).",
-    "C06": " Added: the error raised by the transport is built from plain reads (nothing that can itself raise); the alias classes stay importable for shared cores (shared-core predicate of C11 over symbolic layouts). Round 3: the same loader memo rule; the exception registry is read-modify-write-union (alias classes of other clients survive). Round 4: the alias module regenerated for the union of all clients imports both base classes unconditionally. Round 5: the registry of a core contained in the regenerated package survives at any depth; the bundled transport never switches redirect-following on. Rounds 6-7: the generated dispatch (abstractly interpreted with guarded wildcard arms and boolean path facts) classifies undeclared / range-declared 4xx / 5xx before the catch-all; the transport sends once per call so every answer passes the status guard; building the error object is total (constructors, `.text`); model classes never shadow the exception aliases.",
-    "C07": " Added: str-enum options are compared by value; the tag grouping key is at least as coarse as the module/class names derived from a tag (character-class containment by string-shape interpretation). Round 3: every HTTPMethod member passes the path-item key filter (skip tests evaluated per member); the CLEAN strategy compares case-folded values on both sides. Round 4: a rendered method is never served from a cache keyed by the operation alone (rendering registers imports per module); sanitize_method_name yields ASCII identifiers for every input. Round 5: no key of the Paths Object other than an `x-` extension is filtered out before the operations parser (filter evaluated per key); the list of rendered methods reaches the class writer whole. Rounds 6-7: no tag attribute of APIClient equals a member name of the class (fixed member names read from the class template, refused by the sanitiser); a `$ref` Path Item is resolved or rejected and an unknown key holding a mapping raises; a recognised method key is never skipped on account of its value.",
+    "C06": " Added: the error raised by the transport is built from plain reads (nothing that can itself raise); the alias classes stay importable for shared cores (shared-core predicate of C11 over symbolic layouts). Round 3: the same loader memo rule; the exception registry is read-modify-write-union (alias classes of other clients survive). Round 4: the alias module regenerated for the union of all clients imports both base classes unconditionally. Round 5: the registry of a core contained in the regenerated package survives at any depth; the bundled transport never switches redirect-following on. Rounds 6-7: the generated dispatch (abstractly interpreted with guarded wildcard arms and boolean path facts) classifies undeclared / range-declared 4xx / 5xx before the catch-all; the transport sends once per call so every answer passes the status guard; building the error object is total (constructors, `.text`); model classes never shadow the exception aliases. Round 9: a send site of the transport that does not buffer the body needs aread() in the raising branch before the error is built from the body.",
+    "C07": " Added: str-enum options are compared by value; the tag grouping key is at least as coarse as the module/class names derived from a tag (character-class containment by string-shape interpretation). Round 3: every HTTPMethod member passes the path-item key filter (skip tests evaluated per member); the CLEAN strategy compares case-folded values on both sides. Round 4: a rendered method is never served from a cache keyed by the operation alone (rendering registers imports per module); sanitize_method_name yields ASCII identifiers for every input. Round 5: no key of the Paths Object other than an `x-` extension is filtered out before the operations parser (filter evaluated per key); the list of rendered methods reaches the class writer whole. Rounds 6-7: no tag attribute of APIClient equals a member name of the class (fixed member names read from the class template, refused by the sanitiser); a `$ref` Path Item is resolved or rejected and an unknown key holding a mapping raises; a recognised method key is never skipped on account of its value. Round 9: a loop that follows Path Item references overlays each hop only with fields computed inside the loop.",
     "C08": " Added: the terminal-state transition depends only on name and state; every declared schema ends up registered (registration rules shared with C02). Round 3: parsed_schemas only grows during a load (no del/pop/clear outside the reset API), so tracker state and registry stay in step. Round 4: every path through enter changes the depth by +1 and through exit by -1 (0 at depth 0); every default depth limit x 6 frames per depth unit fits CPython's default recursion limit.",
     "C09": " Added: compare-only generation compares the core for every layout in which it lies outside the client package (guard evaluated over symbolic layouts incl. textual-prefix siblings); the registry entry of a client is overwritten, never kept. Round 3: a keyed sort of an unordered collection must use a key that cannot tie (element itself, tuple ending in the element, offset of the delimited element); compare-only generation creates the ancestor __init__.py files that direct generation creates. Round 4: both operands of every relative-path computation in RenderContext are normalised the same way (lexical or symlink-resolved). Declined: an external tool's command-line flag (`ruff --force-exclude`). Round 5: the comparison leaves no generated file out; an existing output package and force=False always select the compare-only branch (the package directory itself is tested); nothing read from outside the process is memoised. Rounds 6-7: file times are ambient values; the self-import decision compares the file's own directory, not any ancestor; both branches create the same ancestor `__init__.py` files; ruff runs `--isolated`; the comparison (modelled independently of its spelling) walks both trees, every file, and flags stale files.",
     "C10": " Added: the same diff-coverage rule; a write path built from the parent of a directory the function was given (a sibling write) is a violation. Round 4: `with suppress(...)` around a write of generated output counts as a swallowing handler; the in-place rewriting tools get generated files only, never a directory obtained by climbing. Round 5: the mode switch tests the output package directory itself; no memoised outside reads; the comparison covers every generated file. Rounds 6-7: every ruff sub-process runs with `--no-cache` and `--isolated`; the function holding the force / exists switch is found by shape, so clean-up helpers of a wrapper are judged by the destructive-operations table.",
@@ -305,10 +305,10 @@ EXTRA = {
     "C12": " Added: producers of dot-relative module paths (RenderContext path helpers) may only feed add_relative_import, never an absolute import registration; the post-processor (the only other writer of generated files) never receives the runtime copies. Round 3: every module-name literal that can flow into a dynamic module expression (conditional arms, `or` operands, all definitions of the locals) passes the allow-list. Round 4: the runtime-copy filter compares resolved paths on both sides; RenderContext never completes a core module path (root or sub-module) into the client package. Round 5: the post-processor's tools are given files, never directories; the non-force comparison covers the runtime copies. Rounds 6-7: no call in a runtime file takes a string that names the generator distribution / package.",
     "C13": " Added: every EndpointVisitor is built over the schema registry (a mock signature otherwise differs for inline item types); a consumer that reads the coroutine/async-generator nature from the single line closing a rendered signature obliges the signature writer to keep the whole return annotation on that line; instance-level memo tables of the shared endpoint generators are keyed by every parameter the value is computed from. Round 3: no function of visit/endpoint changes its IROperation (or an alias of one of its attributes) in place. Round 4: the AsyncIterator sniff is the whole coroutine/async-generator decision (no conjunct over other state). Round 5: IR elements reached through a loop over an operation's attributes are not changed in place either. Rounds 6-7: the emitter that renames colliding operation ids in the shared IR dominates every emitter that derives method names from them; a streamed `2XX` or `default` response is yielded by the client method (flag of the wildcard arm evaluated); the self-import decision looks at the file's package; model classes never shadow `Protocol`. Round 8: handler and signature take the streaming decision from the same predicate (a method test in one only is a disagreement).",
     "C14": " Added: the generated get_mapping() has one entry per discriminator value (written from the spec's mapping or an item-wise sequence of it, never from a re-keyed dict); no converter function memoises per type (functools cache / table) a sequence derived from the member order of that type (typing.Union equality ignores order). Round 3: named union/array members are expanded to their underlying type only when primitive (decision evaluated over the type domain); the discriminator-enum collector consults the mapping on every path to 'skip variant'. Round 4: every loop of _structure_union over the union members keeps get_args order; the IR's discriminator mapping is the document's mapping, unfiltered. Round 5: the discriminator metadata is read from the type as handed in and members are never unwrapped; required-ness of variants is exact (rules of C02). Rounds 6-7: a discriminator without mapping dispatches through an implicit mapping; the entry point structures into the type as given (no re-binding of the type parameter); primitive variants are narrowed by the payload's own JSON type before the coercing loop. Round 8: the float variant of a union accepts JSON integers (bool excluded).",
-    "C15": " Added: json.dumps used as a Python-literal maker for spec text passes ensure_ascii=False (non-BMP characters survive); re-splitting is judged by provenance, escaping helpers are recognised by their bodies. Round 4: no character-removing step follows docstring escaping; a plain value emitted as whole line(s) carries no spec text that bypassed every sanitiser. Round 5: the line scanners that cut Protocol stubs / mock methods out of a rendered method end at the implementation signature. Rounds 6-7: the line funnel (write_line / append) hands text on unchanged; a hole ending at the closing triple quote escapes a final quote; nothing trims an escaped value afterwards (also when a helper did the escaping); enum-typed defaults are resolved by value against the generator's own member list.",
+    "C15": " Added: json.dumps used as a Python-literal maker for spec text passes ensure_ascii=False (non-BMP characters survive); re-splitting is judged by provenance, escaping helpers are recognised by their bodies. Round 4: no character-removing step follows docstring escaping; a plain value emitted as whole line(s) carries no spec text that bypassed every sanitiser. Round 5: the line scanners that cut Protocol stubs / mock methods out of a rendered method end at the implementation signature. Rounds 6-7: the line funnel (write_line / append) hands text on unchanged; a hole ending at the closing triple quote escapes a final quote; nothing trims an escaped value afterwards (also when a helper did the escaping); enum-typed defaults are resolved by value against the generator's own member list. Round 9: enum member values reach the emitted literal converted to the base type only (no trim/case/replace/slice on the chain from schema.enum).",
     "C16": " Added: the raw-dict fallback of union decoding applies to dict[str, Any] only (guard evaluated over {str, other} x {Any, other}); no value computed from a class is memoised on the class and read back through an inheriting lookup. Round 3: the None-stripping pass descends into every dict and list. Round 4: a field the Meta map does not list keeps its own name as wire key in both directions. Round 5: a process-wide 'already registered' record identifies classes by the object, never by names only. Rounds 6-7: the Meta key maps are collected over the whole MRO; rejected union variants keep their nested error detail; the per-class hooks hand the payload / instance on unchanged; the field-type resolver always reaches get_type_hints for a dataclass. Round 8: nothing but the data preview is truncated in the nested error detail, helpers included.",
     "C17": " Added: where plugin-added params/cookies are merged into the caller's value, that value is converted with dict() only under a type test. Round 3: the credential a bundled plugin writes is built from its stored state, never from the raw result of an awaited callback. Round 4: the bearer-token shortcut is written after the per-request headers were merged. Rounds 6-7: every header store after the first layer is case-insensitive (the verified helper `set_header`, whose calls are read as the plain header writes the layering rules look for); plugin-added query parameters are merged onto the query of the request URL and plugin-added cookies extend an existing Cookie header (httpx's replace / drop behaviour is part of the trusted base). Round 8: no `.items()` of a caller-supplied value is spliced into a pair list in the merge of plugin params.",
-    "C18": " Added: the joined data reaches the event unchanged (no strip / replace on it). Round 3: a value whose truthiness guards a yield is an instance of a class without __bool__/__len__. Round 4: iter_sse tests and accumulates each line of aiter_lines() unmodified; the field split is at the first colon also when written with partition. Round 5: what a decoder has buffered lives in the call, never in a class-level / module-level / default-argument container. Rounds 6-7: comment lines never decide a dispatch (a block of comments only is not an event).",
+    "C18": " Added: the joined data reaches the event unchanged (no strip / replace on it). Round 3: a value whose truthiness guards a yield is an instance of a class without __bool__/__len__. Round 4: iter_sse tests and accumulates each line of aiter_lines() unmodified; the field split is at the first colon also when written with partition. Round 5: what a decoder has buffered lives in the call, never in a class-level / module-level / default-argument container. Rounds 6-7: comment lines never decide a dispatch (a block of comments only is not an event). Round 9: containers the decoders append to are unbounded and lose nothing before the yield (no deque maxlen, self-slice, delete, discarded pop).",
     "C19": " Added: the recursion context is threaded through every recursive parse (declaration-order independence); a strict JSON parse is selected by metadata, never by sniffing the text. Round 3: raw document keys are never ordered against each other (sorted/min/max over items/keys need a str key); no local of an items-loop carries a value from one entry to the next. Round 4: memo tables kept on the parsing context are keyed by every parameter the stored conversion depends on; references find registered schemas by declared name (raw-name index); names invented for inline schemas must not be a constant numbered in encounter order (two findings). Round 5: sibling inline property schemas get distinct made-up names; made-up names are tested against the declared names. Rounds 6-7: values read from a slot of a shared variant schema are kept per variant before the slot is rewritten; allOf merges and placeholder bindings do not depend on declaration order (= R2.22, R2.11).",
 }
 ROBUST = (" Recognition is by role and shape (parameters, loop targets, single-definition chasing, metavariable patterns, polarity-normalised guards), not by local"
